@@ -370,4 +370,46 @@ def envDict (w : World) : Nat → Nat → Option Dict
       | some r => envDict w fuel r
       | none => some e.env
 
+/-! ## (f) the inner rerun: `Workflow.rerun` of a task inside a failed / cancelled sub-workflow
+
+`_recursive_rerun()`: `set_state(RUNNING)` on the execution — which writes
+`accepted = is_completed(RUNNING) = False` — then, through `wf_ex.task_execution_id`, the same on the
+parent execution and `mark_task_running` on the parent task, up to the root. -/
+
+/-- the events of `step` plus the inner rerun of (a task of) execution `c` -/
+inductive EvR where
+  | base (ev : Ev)
+  | rerun (c : Nat)
+  deriving Repr
+
+/-- `_recursive_rerun` from execution `c` upwards (fuel = the python recursion through the parents) -/
+def reopen : Nat → World → Nat → World
+  | 0, w, _ => w
+  | fuel + 1, w, c =>
+    match w.execs[c]? with
+    | none => w
+    | some e =>
+      -- Workflow.set_state(RUNNING): state + `accepted = is_completed(state)`
+      let w1 := { w with execs := w.execs.set c { e with state := .RUNNING, accepted := false } }
+      match e.parentTask with
+      | none => w1
+      | some t =>
+        match w1.tasks[t]? with
+        | none => w1
+        | some tk =>
+          -- parent_wf._recursive_rerun(), then mark_task_running(parent_task_ex)
+          let w2 := reopen fuel w1 tk.wf
+          { w2 with tasks := w2.tasks.set t { tk with state := .RUNNING } }
+
+def stepR (w : World) : EvR → World
+  | .base ev => step w ev
+  | .rerun c =>
+    match w.execs[c]? with
+    | some e =>
+      -- only a failed or cancelled execution has a task to rerun
+      if e.state == .ERROR || e.state == .CANCELLED then reopen (w.execs.length + 1) w c else w
+    | none => w
+
+def runR (w : World) (evs : List EvR) : World := evs.foldl stepR w
+
 end Mistral.SubWf
